@@ -182,6 +182,11 @@ long long c_delineate_boundary(long long nrows, long long ncols,
     /* Grid size */
     ngrid = nrows*ncols;
 
+    /* Check area cells are in the grid */
+    for(i=0; i<nval; i++)
+        if(idxcells_area[i]<0 || idxcells_area[i]>=ngrid)
+            return CATCHMENT_ERROR + __LINE__;
+
     /* Maximum distance to seek for next boundary point */
     distmax = nrows > ncols ? nrows : ncols;
 
